@@ -202,6 +202,7 @@ func runC02(c *Check) {
 
 	// R8 / R9 (added after seeded round 2)
 	c.ruleHeaderCursorRefreshed("R8")
+	c.ruleCursorStoreAfterAdmission("R10")
 	c.ruleRevertPrunesViaGetter("R9", a)
 }
 
@@ -361,6 +362,10 @@ func runC09(c *Check) {
 	// R8/R9 (added after seeded round 2)
 	c.ruleRevertPrunesViaGetter("R8", a)
 	c.ruleRevertFileLoop("R9")
+	c.ruleMakeSizesBounded("R10", "spynode.(*Node).GetHeaders")
+	c.ruleReadIsFresh("R11", a)
+	c.ruleSaveNotSkipped("R12", []string{"storage.(*BlockRepository).save", "storage.(*BlockRepository).Save"}, "storage", "BlockRepository",
+		map[*types.Var]bool{a.lastHeaders: true, a.height: true}, map[string]bool{"storage.(*BlockRepository).Load": true, "storage.NewBlockRepository": true})
 
 	// R3/R4
 	c.ruleRepoCoupled("R3", a)
@@ -553,6 +558,7 @@ func runC10(c *Check) {
 	}
 
 	c.ruleRevertFileLoop("R6")
+	c.ruleSetLastHashAfterAdd("R7")
 
 	if fn := c.Fn("R2", "storage.(*BlockRepository).Add"); fn != nil {
 		n := 0
